@@ -254,7 +254,12 @@ CHECKS = {
                   "damaged bytes to be a full valid encoding of another message (the residual, unproved premise is that in-place damage does "
                   "not forge one - a CRC-32C collision; for damage confined to ONE byte, so for every single-bit flip and 1-byte overwrite, "
                   "this is proved for the CRC-32C of Codec.v: two strings one byte apart have different checksums, and a V2 record "
-                  "damaged in one byte is never read back with its size unchanged - the read fails unless a length field was hit); "
+                  "damaged in one byte is never read back with its size unchanged - the read fails unless a length field was hit; "
+                  "CrcBurst.v extends this to every overwrite confined to a window of at most FOUR consecutive bytes, i.e. any burst of up to "
+                  "32 bits, that does not straddle the end of the record's checksum field: the register update is linear over GF(2) and "
+                  "injective on 32-bit values, so two equally long strings that differ only inside such a window have different checksums "
+                  "(crc32c_burst, burst_damage_detected); for longer windows, and for one covering bytes of the checksum field and of the data "
+                  "behind it, CRC-32C gives no guarantee and none is claimed); "
                   "the answer of a read depends only on the bytes of the record read, so calls answered "
                   "from untouched bytes are unchanged; length fields are guarded by the 64 MiB bound and slices never exceed the file. Tied "
                   "to /repo by a sweep over multi-segment V2 logs with one log file damaged (bit flips, 1-8 byte overwrites, every "
@@ -262,7 +267,7 @@ CHECKS = {
                   "byte-level reader model (BytesLog.v) and checked: no panic, no message differing from the published one, error when "
                   "the answer would include an overwritten record, unchanged answers for calls independent of the damaged file.",
              ref='6/C14', technique='Coq proof (decoder soundness/extensionality) + exhaustive damage sweep against the byte-level reader model',
-             note="Residual premise crc_detects (no CRC-32C collision produced by the damage) is proved for one-byte damage only; memory use of the Go "
+             note="Residual premise crc_detects (no CRC-32C collision produced by the damage) is proved for damage confined to a window of at most four bytes (one-byte damage anywhere; 2-4 byte windows unless they straddle the end of the checksum field); memory use of the Go "
                   "runtime is not modelled. " + COMMON_NOTE),
  'C18': dict(text="Partial. Proved (Coq) for the transition system of Notify.v - Wait/Set/Close cut at every channel operation and "
                   "atomic access, any number of threads, every interleaving, by an invariant preserved by every step: token discipline "
